@@ -58,6 +58,9 @@ def strategy(tier):
             "foreign": draw(st.sampled_from([[], ["not_a_state"], ["dt", "t"], []])),
             # one CodeGenerator object serving every subset (a library user's loop) or a fresh one per request
             "shared_generator": draw(st.booleans()),
+            # the hybrid scheme generated with unused-variable removal must still agree with the plain
+            # (unreduced) Euler / Rush-Larsen of the same model, slot by slot
+            "remove_unused": draw(st.sampled_from([False, False, True])),
         }
 
     return _s()
@@ -67,10 +70,10 @@ def sample_view(case):
     return {"text": X.render_model(case["model"]), **{k: case[k] for k in ("backend", "alias", "delta", "dt", "foreign")}, "subsets": case["subsets"][:4]}
 
 
-def build_hybrid(backend, ode, model, alias, stiff, delta, cg=None):
+def build_hybrid(backend, ode, model, alias, stiff, delta, cg=None, remove_unused=False):
     if alias == "hybrid_rush_larsen" and cg is None:
-        return make_mod(backend, ode, model, schemes=["hybrid_rush_larsen"], stiff_states=stiff, delta=delta)
-    return make_scheme_mod(backend, ode, model, alias, cg=cg, stiff_states=stiff, delta=delta)
+        return make_mod(backend, ode, model, schemes=["hybrid_rush_larsen"], stiff_states=stiff, delta=delta, remove_unused=remove_unused)
+    return make_scheme_mod(backend, ode, model, alias, cg=cg, remove_unused=remove_unused, stiff_states=stiff, delta=delta)
 
 
 def func_source(code: str, name: str, backend: str) -> str:
@@ -108,16 +111,18 @@ def check_case(case):
     for pt in case["points"]:
         ref_euler.append(base.call("explicit_euler", pt, dt=dt))
         ref_grl.append(base.call("generalized_rush_larsen", pt, dt=dt))
-    shared = new_generator(backend, ode) if case.get("shared_generator") else None
+    ru = bool(case.get("remove_unused"))
+    ctx["remove_unused"] = ru
+    shared = new_generator(backend, ode, ru) if case.get("shared_generator") else None
     for S in case["subsets"]:
         stiff_arg = list(S) + list(case["foreign"])
-        mod = gen(build_hybrid, backend, ode, model, alias, stiff_arg if (S or case["foreign"]) else None, delta, shared)
+        mod = gen(build_hybrid, backend, ode, model, alias, stiff_arg if (S or case["foreign"]) else None, delta, shared, ru)
         if not mod.has(alias):
             raise Violation(f"C07:{backend}:missing-function", dict(ctx, code=mod.code))
         c2 = dict(ctx, stiff=stiff_arg, code=mod.code)
         if case["foreign"] or True:
             # names that are not states (and duplicates) have no effect on the emitted function
-            mod2 = gen(build_hybrid, backend, ode, model, alias, list(S) + list(S) if S else [], delta)
+            mod2 = gen(build_hybrid, backend, ode, model, alias, list(S) + list(S) if S else [], delta, None, ru)
             if func_source(mod.code, alias, backend) != func_source(mod2.code, alias, backend):
                 raise Violation(f"C07:{backend}:foreign-or-duplicate-names-change-code", c2)
         for k, pt in enumerate(case["points"]):
